@@ -20,6 +20,9 @@ def edit_prefix(rng, k):
             ops += ['pick live %d' % big, 'add_child $0 %s - -' % vf.enc_str('z%d' % s)]
         else:
             ops += ['ladderize']
+        if rng.random() < 0.1:
+            # an operation on a removed / unknown id: refused, and nothing may be left behind
+            ops += ['pick %s %d' % (rng.choice(['removed', 'any']), big), rng.choice(['add_child $0 %s - -' % vf.enc_str('g%d' % s), 'prune $0'])]
     return ops
 
 class Check(PropCheck):
